@@ -182,9 +182,15 @@ macro_rules! impl_conversion_to_float {
                     } else if top_bit < $lb {
                         Err(ConversionError::LossOfPrecision)
                     } else {
+                        // strip the factor 2^zeros of the numerator (only an integer can have one): the
+                        // rest must fit the mantissa, otherwise the conversion is not lossless
+                        let zeros = value.0.numerator.trailing_zeros().unwrap();
+                        if num_bits - zeros > <$t>::MANTISSA_DIGITS as usize {
+                            return Err(ConversionError::LossOfPrecision);
+                        }
                         match <$t>::encode(
-                            value.0.numerator.try_into().unwrap(),
-                            -(den_bits as i16),
+                            (value.0.numerator >> zeros).try_into().unwrap(),
+                            (zeros as isize - den_bits as isize) as i16,
                         ) {
                             Exact(v) => Ok(v),
                             Inexact(v, _) => {
